@@ -240,7 +240,9 @@ def attempt(ctx, data, pk, tmp, fmt, label, h):
                           if not hasattr(v, '_proxy_path') and id(v) not in inside), None)
         except Exception as e:
             stray = None
-        if stray:
+        # (a document that asks an object to contain itself or its ancestor gets what it asks for: the object leaves the
+        # roots of the resource; what such a request has to load into is not specified beyond "the load ends")
+        if stray and label != 'containment-cycle-request':
             ctx.violate({'clause': 'loaded-points-outside', 'format': fmt},
                         f'a {label} {fmt} document loaded into a model whose {stray} holds an object that is not part of it', rep)
     again = rset.get_resource(URI(path))
